@@ -63,6 +63,13 @@ func (vc *VC) envHere(st *state) *specEnv {
 		return env
 	}
 	// outer loops first so that inner loops shadow
+	// every loop whose header dominates the current block: its variables are defined here, also in blocks
+	// that leave the loop (error exits) and are therefore not part of the natural loop
+	for _, li := range vc.loopList {
+		if (li.header == vc.cur || li.header.Dominates(vc.cur)) && len(li.phiVals) > 0 && !li.blocks[vc.cur] {
+			vc.bindLoopVars(env, li, li.phiVals)
+		}
+	}
 	for _, li := range vc.loopList {
 		if li.blocks[vc.cur] && len(li.phiVals) > 0 {
 			vc.bindLoopVars(env, li, li.phiVals)
@@ -235,6 +242,8 @@ func (vc *VC) trIdent(e *EIdent, env *specEnv, c *Clause) sval {
 		s := sval{term: env.st.get(key), typ: types.Typ[types.Int]}
 		if gd != nil && gd.Result == "bool" {
 			s = boolv(env.st.get(key))
+		} else if gd != nil && gd.Result != "int" && gd.Result != "" && gd.Result != "ref" && gd.Result != "any" {
+			s.typ = vc.resolveType(gd.Result, vc.pkgTypes(gd.Pkg), c)
 		}
 		return s
 	}
